@@ -32,7 +32,7 @@ def sites(F, crates):
             if api == "into_iter":
                 # `for x in &map` / `for x in map`
                 mm = re.match(r"^<(&mut |&)?(.*) as core::iter::traits::collect::IntoIterator>::into_iter$", inst)
-                if not mm or not re.match(r"(std::collections::Hash(Map|Set)|hashbrown::Hash(Map|Set)|dashmap::)", mm.group(2)):
+                if not mm or not re.match(r"(std::collections::(hash::(map|set)::)?Hash(Map|Set)|hashbrown::(map::|set::)?Hash(Map|Set)|dashmap::)", mm.group(2)):
                     continue
                 if not is_random_hash_type(mm.group(2)):
                     continue
@@ -78,6 +78,8 @@ def insensitive(F, s):
                 return None
             cur = u["d"]["l"]
             continue
+        if re.search(r"Itertools::(sorted|sorted_by|sorted_by_key|sorted_unstable|sorted_unstable_by|sorted_unstable_by_key|sorted_by_cached_key)$", fp):
+            return f"sorted with itertools::{fp.split('::')[-1]} before use"
         if INSENSITIVE_CONSUMERS.search(fp):
             return f"consumed by {fp.split('::')[-1]} (order-insensitive)"
         if fp.endswith("Iterator::collect") or fp.endswith("FromIterator::from_iter") or fp.endswith("Iterator::unzip"):
